@@ -188,6 +188,26 @@ def garbage(tier, rnd):
     return out
 
 
+def leaves_partial(b):
+    """driver-side framing: do these bytes (delivered to an empty buffer) end in the middle of a packet?"""
+    i = 0
+    while i < len(b):
+        if len(b) - i < 2:
+            return True
+        j = i + 1; n = 0; mult = 1
+        while True:
+            if j >= len(b):
+                return True
+            n += (b[j] & 0x7F) * mult; mult *= 128
+            if not b[j] & 0x80:
+                break
+            j += 1
+        if len(b) - (j + 1) < n:
+            return True
+        i = j + 1 + n
+    return False
+
+
 def fam_inject(out, tier, rnd):
     inj = garbage(tier, rnd)
     for p in corpus():
@@ -208,7 +228,7 @@ def fam_inject(out, tier, rnd):
             n = 0
             while i < len(todo) and w.t[A].phase in ("open",) and n < 12:
                 w.recv(A, todo[i]); i += 1; n += 1
-                if w.p[A]._buffer:                      # a partial packet is waiting: start afresh so that injections stay independent
+                if leaves_partial(todo[i - 1]):         # a partial packet is waiting: start afresh so that injections stay independent
                     break
             if rnd.random() < 0.5 and w.due():
                 w.fire(w.due()[0])
